@@ -10,7 +10,15 @@
    messages m0..m<i>, so a key of depth d is first answered by bundle d).                       *)
 From FluentV Require Import Base.Sexp Base.Outcome Fallback.Cache.
 
-Definition dec_nat (x : sexp) : nat := match x with I z => Z.to_nat z | _ => 0 end.
+(* a key is d, or (e d) / (g d): a message present from bundle d on whose value formats WITH a resolver
+   error (missing variable / unknown reference).  For the request loop such a key is FOUND in bundle d:
+   the answer of a bundle is "has the message", whatever its formatting reports. *)
+Definition dec_nat (x : sexp) : nat :=
+  match x with
+  | I z => Z.to_nat z
+  | L [_; I z] => Z.to_nat z
+  | _ => 0
+  end.
 
 Definition dec_consumer (x : sexp) : list nat :=
   match x with L (_ :: ds) => map dec_nat ds | _ => [] end.
